@@ -173,6 +173,7 @@ class FunctionSpec:
         self.flags = []
         self.includes = []
         self.witness = []
+        self.selfharness = None
         for k, v in parse_directives(path):
             if k in ('function', 'file', 'sig', 'inclass', 'unit', 'c', 'harness', 'wrapbody', 'bounded'):
                 setattr(self, k, v.strip())
@@ -232,6 +233,8 @@ class FunctionSpec:
                     if not m:
                         raise SpecError("bad @witness line %r in %s" % (l, path))
                     self.witness.append((m.group(1), m.group(2).strip(), m.group(3).strip()))
+            elif k == 'selfharness':
+                self.selfharness = v.strip()
             elif k == 'include':
                 self.includes += v.split()
             elif k == 'safety':
